@@ -531,6 +531,7 @@ pub fn run(ctx: &mut Ctx) -> Result<(), Violation> {
     ctx.stage("random-operands", false, r)?;
     let wc = ctx.tier.cases(6_000, 200_000);
     crate::wide::stage_conn(ctx, "wide-operands", false, wc)?;
+    crate::wide::stage_collisions(ctx, "operands-with-equal-hash-sub-diagrams", "conn")?;
     Ok(())
 }
 
